@@ -30,6 +30,16 @@ func c11Status(name string) ItemState {
 
 // c11Build makes a tree whose shape (children counts), statuses and URL classes are symbolic.
 func c11Build(levels, fanout, classes int) *c11Tree {
+	fan := make([]int, levels-1)
+	for i := range fan {
+		fan[i] = fanout
+	}
+	return c11BuildFan(fan, classes)
+}
+
+// c11BuildFan: fan[d] is the largest number of children of a node at depth d (the tree has len(fan)+1 levels).
+func c11BuildFan(fan []int, classes int) *c11Tree {
+	levels := len(fan) + 1
 	t := &c11Tree{}
 	n := 0
 	var build func(parent *Item, depth int) *Item
@@ -39,7 +49,7 @@ func c11Build(levels, fanout, classes int) *c11Tree {
 		it := &Item{id: id, url: c11URL("url_"+id, classes), status: c11Status("status_" + id), parent: parent}
 		t.nodes = append(t.nodes, it)
 		if depth < levels-1 {
-			k := verifrt.Choice("kids_"+id, fanout+1)
+			k := verifrt.Choice("kids_"+id, fan[depth]+1)
 			for i := 0; i < k; i++ {
 				it.children = append(it.children, build(it, depth+1))
 			}
@@ -210,7 +220,15 @@ func VerifH_C11_dedupe_anytree() { c11Dedupe(3, 2, 2, false) }
 
 // c11Complete: CompleteAndCheck() is true iff nothing in the tree still awaits fetching or post-processing.
 func c11Complete(levels, fanout int) {
-	t := c11Build(levels, fanout, 2)
+	fan := make([]int, levels-1)
+	for i := range fan {
+		fan[i] = fanout
+	}
+	c11CompleteFan(fan)
+}
+
+func c11CompleteFan(fan []int) {
+	t := c11BuildFan(fan, 2)
 	verifrt.Assume(t.seed.CheckConsistency() == nil)
 	verifrt.Assume(c11Reach(t.seed))
 	pre := c11Present(t.seed)
@@ -242,7 +260,8 @@ func c11Complete(levels, fanout int) {
 }
 
 func VerifH_C11_complete_small() { c11Complete(3, 2) }
-func VerifH_C11_complete_deep()  { c11Complete(4, 2) }
+// four levels (the asset-of-asset-of-asset depth the pipeline reaches), at most 7 nodes
+func VerifH_C11_complete_deep() { c11CompleteFan([]int{2, 2, 1}) }
 
 // VerifH_C11_levels: GetNodesAtLevel(GetMaxDepth()) is exactly the set of deepest present nodes.
 func VerifH_C11_levels() {
